@@ -44,8 +44,36 @@ impl Prop for C02 {
         let mut db = FrontCfg::default_cfg().new_db(Plugins::Default);
         let mut n = 0u64;
         ctx.shrink_iters = 150;
+        // Third execution source: the primitive-operation crates of C06 on boundary operands
+        // (full boundary sets incl. every 2^k, 2^k+-1, perfect squares): the inputs on which
+        // hint-supplied witnesses are most likely to be rejected by the CASM checks.
+        let prim_db = FrontCfg::default_cfg().new_db(Plugins::Default);
+        let prims: Vec<crate::props::c06::TypeProgram> =
+            crate::props::c06::TYPES.iter().filter_map(|t| crate::props::c06::compile_type(&prim_db, t).ok()).collect();
+        let prim_bounds: Vec<Vec<num_bigint::BigInt>> = prims.iter().map(|tp| crate::props::c06::boundary_values(&tp.ty, true)).collect();
         ctx.run_shards(1300, cases, |cc: &mut CaseCtx<'_>, ch: &mut Choices| {
             n += 1;
+            if !prims.is_empty() && ch.chance(1, 4) {
+                let ti = ch.below(prims.len());
+                let b = &prim_bounds[ti];
+                for _ in 0..24 {
+                    let x = b[ch.below(b.len())].clone();
+                    let y = if ch.chance(1, 3) { x.clone() } else { b[ch.below(b.len())].clone() };
+                    match crate::props::c06::judge_pair(&prims[ti], &x, &y) {
+                        Ok(runs) => {
+                            let st = cc.stats();
+                            st.evals(runs as u64);
+                            st.add("runs_primitive_ops", runs as u64);
+                            st.nontrivial(hash_str(&format!("prim{ti}:{x}:{y}")));
+                        }
+                        Err((sig, what)) if sig.starts_with("vm-error") => {
+                            return Verdict::fail(vm_sig(&what), format!("primitive operation on ({x}, {y}): {what}"), json!({"primitive": {"type": format!("{:?}", prims[ti].ty), "x": x.to_string(), "y": y.to_string()}}));
+                        }
+                        Err(_) => cc.stats().count("primitive_result_mismatch(C06)"),
+                    }
+                }
+                return Verdict::Pass;
+            }
             if n % 60 == 0 {
                 db = FrontCfg::default_cfg().new_db(Plugins::Default);
             }
@@ -93,6 +121,17 @@ impl Prop for C02 {
         });
     }
     fn replay(&self, artefact: &Value) -> Verdict {
+        if let Some(p) = artefact.get("primitive") {
+            let db = FrontCfg::default_cfg().new_db(Plugins::Default);
+            let Some(t) = crate::props::c06::TYPES.iter().find(|t| format!("{t:?}") == p["type"].as_str().unwrap_or("")) else { return Verdict::Skip("type") };
+            let Ok(tp) = crate::props::c06::compile_type(&db, t) else { return Verdict::Skip("compile") };
+            let x: num_bigint::BigInt = p["x"].as_str().unwrap_or("0").parse().unwrap_or_default();
+            let y: num_bigint::BigInt = p["y"].as_str().unwrap_or("0").parse().unwrap_or_default();
+            return match crate::props::c06::judge_pair(&tp, &x, &y) {
+                Err((sig, what)) if sig.starts_with("vm-error") => Verdict::fail(vm_sig(&what), what, json!({})),
+                _ => Verdict::Pass,
+            };
+        }
         match execs::from_artefact(artefact) {
             Ok((c, f, args, gas)) => match execs::run(&c, &f, &args, gas) {
                 Err(ExecErr::Vm(m)) => Verdict::fail(vm_sig(&m), m, json!({})),
